@@ -211,6 +211,33 @@ CHECKS = {
             'data types equal the OAL typing the statement enumerates.',
             'Trusted: prebuildhost analyser and constraint counter. Arithmetic result types, selected, elif/else pseudo-statements are not claimed.',
             'DESIGN.md section 5, C06'),
+    'C14': ('explorer',
+            'explicit-state BFS over edit scripts on real and synthesised BridgePoint models; component extraction compared with an independent abstract class-diagram model, plus exhaustive row permutations',
+            'States are edit scripts of length <= 2 (thorough 3) on the real Simple_Model.xtuml and on a rich synthesised diagram '
+            '(rename / retype / move attributes, add / remove identifier attributes, toggle derived, set multiplicity, '
+            'conditionality and phrases on every relationship end, move elements between scopes, renumber relationships), '
+            'canonicalised by an abstract diagram extracted from the rows independently of ooaofooa; plus a family of 166 '
+            'one-relationship diagrams (simple / linked / sub-super x end combinations x reflexive x key arity x formalising '
+            'side). In every state, for derived_attributes in {False, True} and for the whole model and every component: the '
+            'schema of mk_component equals the expected schema computed from the diagram (classes, attribute order, core '
+            'types, identifiers, associations with keys / multiplicity / conditionality per end / phrases), the persisted '
+            'schema loads back to the same definitions, build_component and gen_sql_schema.main agree (shallow depths), the '
+            'difference to the parent state stays inside the edited item, and the result is identical for the reversed file, '
+            'every rotation and all permutations of every group of <= 6 rows.',
+            'Trusted: mc/refs/bpsynth.py (abstract diagram, expected schema). Identifier attribute lists and key pairs are compared as sets.',
+            'DESIGN.md section 5, C14'),
+    'C20': ('explorer',
+            'explicit-state BFS over edit scripts on real BridgePoint models; generated XSD compared with the declarations expected from the independent abstract model, plus row permutations',
+            'States are edit scripts of length <= 2 (thorough 3) on Simple_Model.xtuml and a rich synthesised model (rename / '
+            'retype / add attribute, add / reorder enumerators by R56 and independently by row order, add user types, move '
+            'elements between components, rename class, toggle derived). In every state and for every component the tree '
+            'returned by gen_xsd_schema.build_schema (re-parsed: well-formed), its prettified text and the file written by '
+            'gen_xsd_schema.main (shallow depths) are compared with the expected declarations: one element per contained '
+            'class, one attribute per non-derived attribute of a supported type typed by the (referred) base type, one simple '
+            'type per core / enumeration / user type in scope with enumerators in R56 order; locality of the diff to the parent '
+            'state; identical results for the reversed file, rotations and permutations of row groups.',
+            'Trusted: mc/refs/bpsynth.py expected_xsd. Order of declarations and min/maxOccurs are not compared.',
+            'DESIGN.md section 5, C20'),
 }
 
 NOT_YET = 'check not built yet in this revision (planned, see DESIGN.md section 5); not claimed until it exists'
